@@ -34,7 +34,7 @@ func init() {
 			ruleDecolorize(r)
 			ruleCHParseSites3(r)
 			ruleDropKeepMatchers(r)
-			ruleNoInPlaceValueMutation(r, []string{enginePkg, metricPkg}, 3)
+			ruleNoInPlaceValueMutation(r, []string{enginePkg, metricPkg}, 2)
 		},
 	})
 }
